@@ -435,6 +435,26 @@ def burst_script(rnd, uidpool):
     return cmds, metas
 
 
+def many_uids_script(rnd):
+    """one user with a few hundred tasks (the table of UID strings fills its probe windows), listed, some cancelled, listed again"""
+    cmds, metas = [], {}
+    FAR = 5000
+    p = rnd.choice([1000, 1001]); q = 1001 if p == 1000 else 1000
+    uids = ['many-%d-%s' % (i, 'k' * rnd.randint(0, 12)) for i in range(rnd.choice([180, 260, 400]))]
+    for a0 in range(0, len(uids), 20):
+        items = []
+        for u in uids[a0:a0 + 20]:
+            it = {'kind': 'add', 'uid': u, 'occ': [FAR + rnd.randint(0, 50)], 'maxsim': 0, 'peer': p}; it['start'] = secs(min(it['occ'])); items.append(it)
+        metas[len(cmds)] = items; cmds.append('A\t%d\t%s' % (p, rrgen.esc(request(items))))
+    metas[len(cmds)] = {'what': 'queue'}; cmds.append('H\t%d\tGET /queue HTTP/1.1' % p)
+    items = [{'kind': 'cancel', 'uid': u, 'peer': rnd.choice([p, p, q])} for u in rnd.sample(uids, 15)]
+    for it in items:
+        metas[len(cmds)] = [it]; cmds.append('A\t%d\t%s' % (it['peer'], rrgen.esc(request([it], 'CANCEL'))))
+    metas[len(cmds)] = {'what': 'queue'}; cmds.append('H\t%d\tGET /queue HTTP/1.1' % p)
+    metas[len(cmds)] = {'what': 'sched'}; cmds.append('H\t%d\tGET /sched HTTP/1.1' % p)
+    return cmds, metas
+
+
 def reply_burst_script(rnd, uidpool):
     """one request with so many items that the replies do not fit into the daemon's 4 KiB write buffer"""
     cmds, metas = [], {}
